@@ -198,28 +198,49 @@ func carriedCheckedRule(P *Program, R *Report) {
 	}}
 	bindPath(fn, innerFn, 2, func() { r2 = q2.ForAllBody(innerFn, inner, innerAcc, false) })
 	R.decide(rule, kProofDCC+":each-contributes", "for every proof: CommitmentsFromProof(pk, proof, p.C) is appended to the contribution", r2.Holds, r2.Path, P.Pos(fn.Pos()))
-	// (4) structures are extracted for the index they are filed under
-	if rf := mustFunc(P, R, rule, kReconRP); rf != nil {
-		ok := false
-		for _, c := range callsIn(rf) {
-			if isCallTo(c, kExtract) {
-				a := c.Common().Args
-				ok = desc(a[0]) == pdRP+"[*][#j]" && desc(a[1]) == "rangekey("+pdRP+")" && desc(a[2]) == pkD
+	// (4) structures are extracted for the index they are filed under (in reconstructRangeProofStructures, or
+	// wherever that code sits below ChallengeContribution)
+	var ext *ssa.Call
+	deepVisit(P, fn, 2, func(g *ssa.Function) {
+		for _, c := range callsIn(g) {
+			if cc, isCall := c.(*ssa.Call); isCall && isCallTo(c, kExtract) && ext == nil {
+				ext = cc
 			}
 		}
-		R.decide(rule, kReconRP+":index", "each structure is extracted with the index its proof is filed under", ok, "", P.Pos(rf.Pos()))
+	})
+	if ext == nil {
+		R.bad(rule, kProofDCC+":extract", "the structures are extracted from the proofs below ChallengeContribution", "no call of ExtractStructure found", P.Pos(fn.Pos()))
+		return
+	}
+	rf := ext.Parent()
+	bindPath(fn, rf, 2, func() {
+		a := ext.Call.Args
+		ok := desc(a[0]) == pdRP+"[*][#j]" && desc(a[1]) == "rangekey("+pdRP+")" && desc(a[2]) == pkD
+		R.decide(rule, kProofDCC+":extract:index", "each structure is extracted with the index its proof is filed under", ok, desc(a[0])+", "+desc(a[1]), P.Pos(ext.Pos()))
 		okStore := false
 		for _, s := range sinksOf(rf) {
 			if s.target == "<gabi.ProofD>.cachedRangeStructures" && s.key == "rangekey("+pdRP+")" {
 				okStore = true
 			}
 		}
-		R.decide(rule, kReconRP+":filed", "and cached under that same index", okStore, "", P.Pos(rf.Pos()))
-		mp(P, R, rule, kReconRP+":extract-error", "a nil error is returned only if every extraction succeeded", rf, AcceptNilErr(0), &MustPass{Exempt: func(a Atom) bool { return strings.HasPrefix(desc(a.V), "rangeok(") && a.Want == False },
-			Match: func(a Atom) bool {
+		R.decide(rule, kProofDCC+":extract:filed", "and cached under that same index", okStore, "", P.Pos(rf.Pos()))
+		// every iteration of the loop over the proofs either extracted successfully or the function fails
+		racc, okAcc := accOfFn(rf, Nil)
+		l := innermostLoopOf(ext.Block())
+		res := mpResult{Path: "the extraction is not inside a loop of a function that can fail"}
+		if okAcc && l != nil {
+			res = (&MustPass{P: P, Match: func(a Atom) bool {
 				c, idx := callAndResult(a.V)
-				return c != nil && calleeName(c) == kExtract && idx == 1 && a.Want == Nil
-			}})
+				return c == ext && idx == 1 && a.Want == Nil
+			}}).ForAllBody(rf, l, racc, false)
+		}
+		R.decide(rule, kProofDCC+":extract:error", "a nil error is returned only if every extraction succeeded", res.Holds, res.Path, P.Pos(ext.Pos()))
+	})
+	if rf != fn {
+		mp(P, R, rule, kProofDCC+":extract:propagated", "contributions are returned only if the extraction of the structures succeeded", fn, acc, &MustPass{NoInterproc: true, Exempt: noRP, Match: func(a Atom) bool {
+			c, _ := callAndResult(a.V)
+			return c != nil && staticCallee(c) == rf && a.Want == Nil
+		}})
 	}
 }
 
